@@ -46,13 +46,14 @@ const (
 	ErrDivisionByZero          = "division by zero error. The right-hand side of the division operator must not be zero"
 
 	// Functions
-	ErrNoFuncForThisType  = "function '%s' doesn't exist for type '%s'"
-	ErrFuncRequiresOneArg = "function '%s' on type '%s' requires at least one argument"
-	ErrFuncFirstArgInt    = "first argument for function '%s' on type '%s' must be an INTEGER"
-	ErrFuncFirstArgStr    = "first argument for function '%s' on type '%s' must be a STRING"
-	ErrFuncSecondArgInt   = "second argument for function '%s' on type '%s' must be an INTEGER"
-	ErrFuncSecondArgStr   = "second argument for function '%s' on type '%s' must be a STRING"
-	ErrFuncMaxArgs        = "function '%s' on type '%s' accepts a maximum of '%d' arguments"
+	ErrNoFuncForThisType       = "function '%s' doesn't exist for type '%s'"
+	ErrFuncRequiresOneArg      = "function '%s' on type '%s' requires at least one argument"
+	ErrFuncFirstArgInt         = "first argument for function '%s' on type '%s' must be an INTEGER"
+	ErrFuncFirstArgStr         = "first argument for function '%s' on type '%s' must be a STRING"
+	ErrFuncSecondArgInt        = "second argument for function '%s' on type '%s' must be an INTEGER"
+	ErrFuncSecondArgStr        = "second argument for function '%s' on type '%s' must be a STRING"
+	ErrFuncFirstArgNotNegative = "first argument for function '%s' on type '%s' must not be negative"
+	ErrFuncMaxArgs             = "function '%s' on type '%s' accepts a maximum of '%d' arguments"
 
 	// Template errors
 	ErrUnsupportedType   = "unsupported type '%T'"
